@@ -246,7 +246,8 @@ fn run_div<N: Sc>(rep: &mut Report, c: &DivCase) {
             let e = if k < c.a.len() { cdiv_ref(c.a[k], cst) } else { C64::new(0.0, 0.0) };
             let g = q.get_coefficient(k).to_c();
             let al = if k > dq { allow / cst.norm() } else { 0.0 };
-            let u = EPS * e.norm();
+            // (a quotient coefficient in the subnormal range is only accurate to the subnormal spacing)
+            let u = (EPS * e.norm()).max(4.0 * f64::MIN_POSITIVE * EPS);
             let err = (g - e).norm();
             if u > 0.0 {
                 worst = worst.max((err - al).max(0.0) / u);
